@@ -206,6 +206,11 @@ func flattenDriverIn(c *Case) any {
 	if err != nil {
 		return M{"skip": true}
 	}
+	// the shared path items live in a vendor extension of the root (Swagger 2.0 has no section for them): extensions
+	// are opaque to the analysis, and a $ref-shaped value inside one is not a $ref of the API — the validators look at the
+	// documents without it (the path items that refer to it are compared after expansion, where they are in `paths`)
+	// (done on the Lean side: FlatDriver leaves the key "x-path-items" out of the compared top-level parts and out of the
+	// $ref scans of the output, and keeps it for resolving the path-item $refs of the input)
 	inDocs := M{"": root}
 	inRefs := M{"": refTargets(root, "")}
 	outDocs := M{"": out}
@@ -246,6 +251,23 @@ func flattenDriverIn(c *Case) any {
 		"canon": canonicalDefRefs(out),
 		"ext":   M{"knownFormats": knownFormatsIn(out), "refTokens": refToks, "mkRef": xt.mkRef, "goName": xt.goName, "statusText": xt.statusText},
 	}
+}
+
+func withoutKey(doc any, k string) any {
+	m, ok := doc.(map[string]any)
+	if !ok {
+		return doc
+	}
+	if _, has := m[k]; !has {
+		return doc
+	}
+	cp := make(map[string]any, len(m))
+	for kk, v := range m {
+		if kk != k {
+			cp[kk] = v
+		}
+	}
+	return cp
 }
 
 // flattenLeanFindings: the clauses decided by the Lean validators.
